@@ -8,6 +8,7 @@ CONSTANTS
   LookupKinds = {}
   FileBase = 1
   RecordHist = FALSE
+  Faults = {"ok", "missing", "stale"}
 INVARIANT UnionOK
 INVARIANT Closed
 INVARIANT TempClosed
@@ -19,4 +20,6 @@ INVARIANT RangesDisjoint
 INVARIANT ModulesSorted
 INVARIANT CacheCoherent
 INVARIANT Lazy
+INVARIANT ErrIffFault
+INVARIANT FailedNotLoaded
 CHECK_DEADLOCK TRUE
